@@ -89,6 +89,17 @@ public:
     //  Helper methods
     // -----------------------------------------------------------------------
     void append(const ValueStore* const other);
+    /**
+      * Moves the values of 'other' into this store, which has none yet.
+      */
+    void takeOver(ValueStore* const other);
+    /**
+      * Adds the values that a child of the element this store belongs to
+      * hands up to it. A value handed up by two children stands for two
+      * different nodes and is left out, it cannot be referred to from this
+      * element upwards. The values are moved out of 'child' where possible.
+      */
+    void appendFromChild(ValueStore* const child);
     void startValueScope();
     void endValueScope();
     void addValue(FieldActivator* const fieldActivator,
@@ -124,6 +135,7 @@ private:
     IdentityConstraint*         fIdentityConstraint;
     FieldValueMap               fValues;
     RefHashTableOf<FieldValueMap, ICValueHasher>* fValueTuples;
+    RefHashTableOf<FieldValueMap, ICValueHasher>* fConflicts; // handed up by more than one child
     XMLScanner*                 fScanner; // for error reporting - REVISIT
     MemoryManager*              fMemoryManager;
 };
